@@ -173,6 +173,9 @@ EvSaveFail ==
   /\ Ev.r.t = "err"
   /\ UNCHANGED <<S, devs>>
 
+(* C06: a hostile input whose own reply is not prescribed; what matters is the probe that follows *)
+EvHostile == Ev.k = "hostile" /\ UNCHANGED <<S, devs>>
+
 EvNote == Ev.k = "note" /\ UNCHANGED <<S, devs>>
 
 EvDropped ==  \* the client saw the server close the connection
@@ -183,7 +186,7 @@ EvDropped ==  \* the client saw the server close the connection
 TraceNext ==
   /\ l <= N
   /\ l' = l + 1
-  /\ (EvOpen \/ EvClose \/ EvReset \/ EvCmd \/ EvNote \/ EvDropped \/ EvUnlogged \/ EvChk \/ EvPush \/ EvQuiesce \/ EvGone \/ EvRaw \/ EvConfig \/ EvServed \/ EvTimeout \/ EvBlockSnap \/ EvRestart \/ EvAofReplay \/ EvBgStart \/ EvBgDone \/ EvBgAbort \/ EvSaveFail \/ EvBgDoneMaybe)
+  /\ (EvOpen \/ EvClose \/ EvReset \/ EvCmd \/ EvNote \/ EvDropped \/ EvUnlogged \/ EvChk \/ EvPush \/ EvQuiesce \/ EvGone \/ EvRaw \/ EvConfig \/ EvServed \/ EvTimeout \/ EvBlockSnap \/ EvRestart \/ EvAofReplay \/ EvBgStart \/ EvBgDone \/ EvBgAbort \/ EvSaveFail \/ EvBgDoneMaybe \/ EvHostile)
   /\ IF l > TLCGet(1) THEN TLCSet(1, l) /\ TLCSet(3, S') ELSE TRUE   \* deepest matched event (last conjunct!)
 
 TraceSpec == TraceInit /\ [][TraceNext]_vars
